@@ -148,6 +148,13 @@ class Unit:
         res = UnitResult(self, interp, paths, b)
         if self.post is not None:
             self.post(res)
+        # a memoising decorator (lru_cache, cache, cached_property ...) keys the result on the arguments only: it is transparent only if
+        # the method reads no instance state that can change after the first call
+        memo = source.memo_decorators(node) if self.node_loader is None else []
+        if memo:
+            stale = source.mutable_self_state_read(self.relpath, self.selector)
+            res.extra.append(Obligation(f'{self.name}.memoised_result_cannot_outlive_the_state_it_was_computed_from', [], z3.BoolVal(not stale),
+                                        'top', {'decorators': memo, 'mutable_state_read': stale}))
         obligations = interp.obligations + res.extra
         info = {
             'target': self.target(),
